@@ -14,7 +14,7 @@ def run(v, workdir, replay):
     v.rule = ("case = one finalized block's validator_updates batch folded CometBFT-style and compared with the stored set; distinct "
               "non-trivial = distinct (era pre/upgrade/post Aspen, multiset of update kinds add/update/remove/readd in the block, batch size) cells "
               "among blocks with a non-empty batch")
-    v.assumptions = ["no misbehaviour evidence is generated (excluded by the property)", "CometBFT's update rules are the four stated above"]
+    v.assumptions = ["blocks with misbehaviour evidence are excluded by the property: from the first such block of a history on only 'stored count == size of the stored set' is judged", "CometBFT's update rules are the four stated above"]
     hists = chainlog.run_chain(v, workdir, "validators", quick=(16, 3, 14), thorough=(16, 40, 30))
     check(v, hists)
     v.need("blocks", 200)
@@ -25,6 +25,9 @@ def run(v, workdir, replay):
     v.need("era:post_aspen_batches", 20)
     v.need("multi_update_blocks", 4)
     v.need("remove_attempts_on_small_sets", 5)
+    v.need("evidence_blocks", 5)
+    v.need("evidence_blocks_naming_two_validators", 1)
+    v.need("blocks_at_or_after_evidence", 20)
 
 
 def check(v, hists):
@@ -32,7 +35,12 @@ def check(v, hists):
         uni = h.genesis["universe"]
         cur = {x["vk"]: x["power"] for x in uni["validators"]}
         aspen = h.genesis["aspen"]
+        evidence_from = min([e["height"] for e in h.events if e["kind"] == "evidence_block"] or [10 ** 9])
         for e in h.events:
+            if e["kind"] == "evidence_block":
+                v.saw("evidence_blocks")
+                if len(e["named"]) >= 2:
+                    v.saw("evidence_blocks_naming_two_validators")
             if e["kind"] == "tx_built":
                 for a in e["actions"]:
                     if a["kind"] == "validator_update" and a["power"] == 0 and len(cur) <= 2:
@@ -44,6 +52,17 @@ def check(v, hists):
             height = e["height"]
             era = "pre_aspen" if height < aspen else ("aspen_block" if height == aspen else "post_aspen")
             batch = e["validator_updates"]
+            if height >= evidence_from:
+                # the block carried, or follows, misbehaviour evidence: the application drops the named validators from its own set
+                # without telling CometBFT, so the fold has no expectation any more (the property excludes these blocks); what still
+                # must hold is that the stored count is the size of the stored set
+                v.saw("blocks_at_or_after_evidence")
+                st = e["stored_validators"]
+                post = {x["vk"]: x["power"] for x in st["post_aspen_entries"] if "vk" in x}
+                if height >= aspen and st["count"] is not None and st["count"] != len(post):
+                    v.violate("C14/stored-count-differs-from-set-size/after-evidence", "stored validator count %s but %d entries" % (st["count"], len(post)),
+                              {"hist": list(h.key), "height": height, "stored": st, "evidence_from": evidence_from})
+                continue
             wit = {"hist": list(h.key), "height": height, "era": era, "batch": batch, "cometbft_set_before": dict(cur), "stored": e["stored_validators"]}
             kinds = []
             seen = set()
